@@ -11,11 +11,9 @@ import (
 	"time"
 
 	"github.com/libp2p/go-libp2p/x/verif/memnet"
-	"github.com/libp2p/go-libp2p/x/verif/memtpt"
 	"github.com/libp2p/go-libp2p/x/verif/vrep"
 )
 
-var Seed = vrep.Seed()
 
 // Watchdog aborts the worker (exit 3 = infrastructure, no verdict) when one case does not finish in
 // real time: inside a bubble that can only happen when a goroutine blocks on something synctest does not
